@@ -26,6 +26,8 @@ func main() {
 		os.Exit(gvc.CmdSelftest(os.Args[2:]))
 	case "mutsweep":
 		os.Exit(gvc.CmdMutSweep(os.Args[2:]))
+	case "npsweep":
+		os.Exit(gvc.CmdNpSweep(os.Args[2:]))
 	default:
 		fmt.Println("unknown command", os.Args[1])
 		os.Exit(2)
